@@ -76,3 +76,18 @@ func VerifShadowRBAC(rm *RBACManager) *RBACManager {
 		maxCacheSize:  1 << 30,
 	}
 }
+
+// VerifRBACEntryTimes reports when the cached decision for the key and the
+// cached per-token RBAC data were stored (zero time: not cached). Used only to
+// classify a stale decision the oracle has already established: an entry older
+// than the mutation survived it (missing invalidation), a younger one was
+// stored from data read before the mutation (concurrent check).
+func VerifRBACEntryTimes(rm *RBACManager, tokenID int64, database, measurement, permission string) (permStored, tokenLoaded time.Time) {
+	if e, ok := rm.permCache[permissionCacheKey{tokenID: tokenID, database: database, measurement: measurement, permission: permission}]; ok && e != nil {
+		permStored = e.expiresAt.Add(-rm.permCacheTTL)
+	}
+	if d, ok := rm.tokenCache[tokenID]; ok && d != nil {
+		tokenLoaded = d.loadedAt
+	}
+	return
+}
